@@ -37,6 +37,9 @@ def plans(prop, tier):
             quick.append(('crt4_hold90', S.consts(CRT=4, HOLDCFG=90, IDLEHOLD=1), 'Bound', dict(per_class=1, nrandom=100, depth=80)))
         if prop in ('C03', 'C02', 'C05'):
             quick.append(('hold0', S.consts(HOLDCFG=0, CRT=3), 'Bound', dict(per_class=1, nrandom=100, depth=80)))
+        if prop == 'C02':
+            # a peer that requires TCP-MD5 signatures: every attempt, not only the first, has to carry the option
+            quick.append(('md5', base, 'Bound', dict(per_class=1, nrandom=100, depth=80, wextra={'md5': 'secret', 'md5_peer': True})))
         if prop in ('C02', 'C13'):
             # idle hold time 0: the restart is due in the instant in which the session ended
             quick.append(('idle0', S.consts(IDLEHOLD=0), 'Bound', dict(per_class=1, nrandom=100, depth=80)))
@@ -48,6 +51,8 @@ def plans(prop, tier):
         out.append(('hold%d' % hold, S.consts(HOLDCFG=hold), 'Bound', dict(per_class=2, nrandom=1000, depth=120)))
     for idle in (0, 1, 3):
         out.append(('idle%d' % idle, S.consts(IDLEHOLD=idle), 'Bound', dict(per_class=2, nrandom=1000, depth=120)))
+    if prop == 'C02':
+        out.append(('md5', base, 'Bound', dict(per_class=2, nrandom=1000, depth=120, wextra={'md5': 'secret', 'md5_peer': True})))
     out.append(('three_live', S.consts(MAXLIVE=3, PEERHOLDS=[0, 90]), 'Bound', dict(per_class=1, nrandom=1000, depth=120)))
     return out
 
